@@ -612,6 +612,9 @@ pub fn post_step(w: &mut World, s: &mut Session, ctx: &PostCtx) -> Result<(), Vi
         if o.fsck {
             fsck_check(w, &after, &ctx.flux)?;
         }
+        if o.dirty_bit && o.fault_resilient {
+            dirty_check(w, "after call (storage errors earlier in the run)")?;
+        }
         return Ok(());
     }
     if o.fsck {
@@ -919,7 +922,7 @@ pub fn extents_check(w: &mut World, s: &Session, p: &Parsed) -> Result<(), Viola
 pub fn after_session(w: &mut World, how: u8, pre_end: &Store) -> Result<(), Violation> {
     let o = w.cfg.oracles.clone();
     let g = w.geo.clone();
-    if w.faulted {
+    if w.faulted && !(o.dirty_bit && o.fault_resilient && !w.unmount_failed && !w.stop) {
         return Ok(());
     }
     if o.dirty_bit {
@@ -931,6 +934,9 @@ pub fn after_session(w: &mut World, how: u8, pre_end: &Store) -> Result<(), Viol
         } else if w.structural && st & 1 == 0 {
             return Err(viol("C12", "abandoned-image-not-dirty", format!("status byte {:#04x}", st), w.step_no));
         }
+    }
+    if w.faulted {
+        return Ok(());
     }
     if o.free_count && g.fat_bits == 32 && how < 2 {
         let d = w.disk.borrow();
